@@ -91,7 +91,7 @@ theorem reusable_after_finalize_or_reset :
       Reusable (finalize (chunks.foldl update p)).2) ∧
     (∀ p : Sha, Reusable p → ∀ junk : List (List UInt8), Reusable (reset (junk.foldl update p))) := by
   refine ⟨(inv_nil_iff _).mp inv_init, fun p hp chunks h => digest_chunks p hp chunks h, fun p hp junk => ?_⟩
-  exact (inv_nil_iff _).mp (inv_reset _ (by rw [foldl_update_buffer_length]; exact hp.2.2))
+  exact (inv_nil_iff _).mp (inv_reset _ (foldl_update_buffer_length junk p hp.2.2))
 
 /-- `Sha256::hmac` is HMAC (RFC 2104) over SHA-256 for every key (shorter than, equal to, longer
 than the block size) and every message -/
